@@ -160,6 +160,7 @@ def run(ctx):
                             break
     from .genslicers import check_generated_slicers
     check_generated_slicers(ctx)           # the definitions regenerated from the source (Generated/Slicers.lean) vs the real code
+    from .gendefocus import check_generated_defocus; check_generated_defocus(ctx)   # Generated/Defocus.lean vs generate_2d_gaussian / add_defocus_blur
 
 
 def replay(ctx, rep):
